@@ -43,7 +43,7 @@ func genClients(ts *sim.Tapes, cfg work.Config, prop, tier string) (prelude *wor
 	pm := work.FinalModel(prelude)
 	nw := 1 + t.Intn(2)
 	nr := 1 + t.Intn(3)
-	if prop == "C02" || prop == "C10" {
+	if prop == "C02" || prop == "C10" || prop == "C06" {
 		nr = 1 + t.Intn(5)
 		nw = 1 + t.Intn(2)
 	}
@@ -146,6 +146,10 @@ type mtWorld struct {
 	commits   int
 	oldReads  int
 	readerAge map[int]int
+	// C06 monitor
+	used        map[int]map[uint64]bool
+	readersOpen map[int]int
+	newest      int
 }
 
 func (m *mtWorld) fail(prop, class, f string, a ...any) {
@@ -220,6 +224,60 @@ func (ss schedsim) runInBubble(c *Case, dir string, out *Outcome) {
 	}
 	cfg := c.Prog.Cfg
 	w := &sim.World{MapOrder: cfg.MapOrder, Order: orderTape, Sched: s}
+	var m *mtWorld
+	if c.Prop == "C06" {
+		// page-set monitor under concurrency: page sets are computed by the
+		// decoder the moment a commit's meta write is complete (the writer
+		// still holds the writer lock), and every pwrite is checked against the
+		// sets of the newest committed version and of every open reader
+		ps := uint64(cfg.PageSize)
+		w.OnPoint = func(db *bolt.DB, point string) {
+			if m == nil || db != m.db || point != "Commit.metaWritten" {
+				return
+			}
+			if data, err := os.ReadFile(path); err == nil {
+				if im, err := dec.Load(data); err == nil {
+					if wi, ok := im.Winner(); ok {
+						res := im.Decode(wi)
+						if res.Fatal == "" {
+							m.used[int(res.Meta.Txid)] = res.UsedSet()
+							m.newest = int(res.Meta.Txid)
+						}
+					}
+				}
+			}
+		}
+		w.OnWrite = func(db *bolt.DB, off int64, n int) {
+			if m == nil || db != m.db {
+				return
+			}
+			first, last := uint64(off)/ps, uint64(off+int64(n)-1)/ps
+			check := func(id int, what string) {
+				set := m.used[id]
+				if set == nil {
+					m.probes["write-without-known-page-set"]++
+					return
+				}
+				for pg := first; pg <= last; pg++ {
+					if set[pg] {
+						m.fail("C06", "overwrite-visible-page", "pwrite off=%d len=%d touches page %d which belongs to %s (txid %d)", off, n, pg, what, id)
+						return
+					}
+				}
+			}
+			m.probes["writes-monitored"]++
+			check(m.newest, "the newest committed version")
+			for id, cnt := range m.readersOpen {
+				if cnt > 0 && id != m.newest {
+					check(id, "the version of an open read transaction")
+					m.probes["writes-checked-against-old-reader"]++
+				}
+			}
+			if slot := uint64(m.newest % 2); first <= slot && slot <= last {
+				m.fail("C06", "overwrite-newest-meta", "pwrite off=%d len=%d hits meta slot %d holding the newest committed meta (txid %d)", off, n, slot, m.newest)
+			}
+		}
+	}
 	w.Install()
 	defer sim.Uninstall()
 
@@ -239,9 +297,17 @@ func (ss schedsim) runInBubble(c *Case, dir string, out *Outcome) {
 			return
 		}
 	}
-	m := &mtWorld{db: pe.DB, cfg: cfg, s: s, versions: map[int]*model.Bucket{}, inflight: map[int]*model.Bucket{}, probes: map[string]int{}, readerAge: map[int]int{}}
+	m = &mtWorld{db: pe.DB, cfg: cfg, s: s, versions: map[int]*model.Bucket{}, inflight: map[int]*model.Bucket{}, probes: map[string]int{}, readerAge: map[int]int{},
+		used: map[int]map[uint64]bool{}, readersOpen: map[int]int{}}
 	m.versions[pe.LastTxid] = pe.Cur
 	m.lastRet = pe.LastTxid
+	m.newest = pe.LastTxid
+	if c.Prop == "C06" {
+		pe.CheckFile("prelude")
+		if pe.LastDec != nil {
+			m.used[pe.LastTxid] = pe.LastDec.UsedSet()
+		}
+	}
 
 	for ci, steps := range c.Clients {
 		ci, steps := ci, steps
@@ -494,6 +560,7 @@ func (ss schedsim) reader(m *mtWorld, e *work.Exec, st *work.Step, t *sim.Task) 
 	}
 	m.openTx++
 	id := tx.ID()
+	m.readersOpen[id]++
 	want := m.versions[id]
 	if want == nil {
 		want = m.inflight[id]
@@ -530,6 +597,7 @@ func (ss schedsim) reader(m *mtWorld, e *work.Exec, st *work.Step, t *sim.Task) 
 		}
 	}
 	m.openTx--
+	m.readersOpen[id]--
 	if rerr := tx.Rollback(); rerr != nil {
 		m.fail("C02", "rollback-error", "reader Rollback: %v", rerr)
 	}
